@@ -11,12 +11,14 @@
 (* back to the template's field values.                                    *)
 (***************************************************************************)
 EXTENDS Integers, Sequences, FiniteSets, TLC, Json
-Families == {"sm2", "rsa", "ecdsa256", "ecdsa384"}
-Algs(f) == CASE f = "sm2" -> {"SM2WithSM3", "SM2WithSHA1", "SM2WithSHA256"}
+\* ("sm2opaque": an SM2 key behind an opaque crypto.Signer - a hardware module, a key service - of which the package sees
+\* only Public() and Sign())
+Families == {"sm2", "sm2opaque", "rsa", "ecdsa256", "ecdsa384"}
+Algs(f) == CASE f \in {"sm2", "sm2opaque"} -> {"SM2WithSM3", "SM2WithSHA1", "SM2WithSHA256"}
              [] f = "rsa" -> {"SHA256WithRSA", "SHA1WithRSA", "SHA384WithRSA", "SHA512WithRSA", "SHA256WithRSAPSS", "SHA384WithRSAPSS", "SHA512WithRSAPSS"}
              [] f = "ecdsa256" -> {"ECDSAWithSHA256", "ECDSAWithSHA1", "ECDSAWithSHA384"}
              [] f = "ecdsa384" -> {"ECDSAWithSHA384", "ECDSAWithSHA256", "ECDSAWithSHA512"}
-Default(f) == CASE f = "sm2" -> "SM2WithSM3" [] f = "rsa" -> "SHA256WithRSA" [] f = "ecdsa256" -> "ECDSAWithSHA256" [] f = "ecdsa384" -> "ECDSAWithSHA384"
+Default(f) == CASE f \in {"sm2", "sm2opaque"} -> "SM2WithSM3" [] f = "rsa" -> "SHA256WithRSA" [] f = "ecdsa256" -> "ECDSAWithSHA256" [] f = "ecdsa384" -> "ECDSAWithSHA384"
 Kinds == {"cert", "csr", "crl", "revlist"}
 \* template classes for certificates (field groups that must survive the round trip)
 Classes == {"plain", "serial20", "names", "usages", "ekus", "ca_pathlen0", "ca_pathlen2", "sans", "constraints", "policies", "extraext", "validity_edges",
@@ -24,7 +26,9 @@ Classes == {"plain", "serial20", "names", "usages", "ekus", "ca_pathlen0", "ca_p
             "subjkey_shortx", "subjkey_shorty",
             \* interactions: every field group at once; an extra extension that replaces a generated one (same OID) next to
             \* other generated extensions
-            "all_fields", "extra_overrides_keyusage", "extra_overrides_eku"}
+            "all_fields", "extra_overrides_keyusage", "extra_overrides_eku",
+            \* an extension the package does not know, followed by a critical one it does know (both given as extras)
+            "extra_unknown_then_known"}
 Eff(f, a) == IF a = "unset" THEN Default(f) ELSE a
 \* symbolic signing: what is signed, by which key
 SignedInput(alg, tbs) == IF alg \in Algs("sm2") THEN <<"raw", tbs>> ELSE <<"digest", alg, tbs>>
